@@ -407,10 +407,49 @@ func (w *World) validatorShape(P, name string) {
 	}
 	// character tests present: comparisons against '0', '9', '.', '-'
 	seen := charsTested(fn)
+	// at least one digit: the accept condition contains a positivity test on an integer quantity other than the
+	// length of the whole argument (a digit count, a difference of scan positions, the summed lengths of the digit
+	// parts): "." and "-." consist of legal characters only and must still be rejected
+	digitCount := false
+	for g := range staticReach(fn, func(x *ssa.Function) bool { return inRepo(x) }) {
+		if !inRepo(g) {
+			continue
+		}
+		allInstrs(g, func(in ssa.Instruction) {
+			bo, ok := in.(*ssa.BinOp)
+			if !ok || !isCmpOp(bo.Op) {
+				return
+			}
+			for _, pair := range [][2]ssa.Value{{bo.X, bo.Y}, {bo.Y, bo.X}} {
+				k, isK := constInt(pair[1])
+				if !isK || (k != 0 && k != 1) {
+					continue
+				}
+				e := pair[0]
+				if b, ok := e.Type().Underlying().(*types.Basic); !ok || b.Info()&types.IsInteger == 0 {
+					continue
+				}
+				if _, isConst := e.(*ssa.Const); isConst {
+					continue
+				}
+				// not simply the length of a parameter
+				if c, ok := e.(*ssa.Call); ok && isLenOf(c, nil) {
+					if _, isParam := c.Call.Args[0].(*ssa.Parameter); isParam {
+						continue
+					}
+				}
+				// a loop index compared with 0 is not a count
+				if ascendingCounter(e) {
+					continue
+				}
+				digitCount = true
+			}
+		})
+	}
 	chars := seen['0'] && seen['9'] && seen['.'] && seen['-']
 	forbidden := seen['e'] || seen['E'] || seen['+'] || seen['x'] || seen['_']
-	w.check(P, "R04.2", "number-syntax validator "+name, fn.Pos(), bad == "" && chars && !forbidden,
-		fmt.Sprintf("tests characters against '0','9','.','-': %v; mentions exponent/plus/hex/underscore characters: %v; delegates to %q", chars, forbidden, bad))
+	w.check(P, "R04.2", "number-syntax validator "+name, fn.Pos(), bad == "" && chars && !forbidden && digitCount,
+		fmt.Sprintf("tests characters against '0','9','.','-': %v; mentions exponent/plus/hex/underscore characters: %v; delegates to %q; requires at least one digit (a positivity test on a digit count): %v", chars, forbidden, bad, digitCount))
 }
 
 type shadow struct {
